@@ -25,11 +25,11 @@ XRUNNERS = {"move_atomic": "run_unix_atomic"}
 ACCEPT_OPS = ("send", "sendw", "senda")
 SLOW_KINDS = ("zc_atomic", "zc_full_sync")          # more accesses per operation: longer round-robin tails
 
-def mk_case(chan, N, M, k, origin, progs, sched, meta=None):
-    line = "uni chan=%s N=%d M=%d k=%d origin=%d ; " % (chan, N, M, k, origin) + " ; ".join(
+def mk_case(chan, N, M, k, origin, progs, sched, meta=None, probe=False):
+    line = "uni chan=%s N=%d M=%d k=%d origin=%d%s ; " % (chan, N, M, k, origin, " probe=1" if probe else "") + " ; ".join(
         " ".join(n if not a else n + ":" + ":".join(str(x) for x in a) for n, a in p) for p in progs) + " ; S " + " ".join(map(str, sched))
     ext = any(n in XOPS for p in progs for n, a in p)
-    if chan not in RUNNERS:
+    if chan not in RUNNERS or probe or any(n == "drivem" for p in progs for n, a in p):
         coq = None                                                # a kind without a lock-step model: judged by the oracles only
     elif ext and chan in XRUNNERS:
         coq = "%s %d %d %d %d [%s] [%s]%%nat" % (XRUNNERS[chan], N, M, k, origin,
@@ -38,7 +38,7 @@ def mk_case(chan, N, M, k, origin, progs, sched, meta=None):
         # (on the full-sync channel send_with_async with a ready setter performs the accesses of send)
         coq = "%s %d %d %d %d [%s] [%s]%%nat" % (RUNNERS[chan], N, M, k, origin,
                 "; ".join("[" + "; ".join(coq_op((("send", a) if n == "senda" else (n, a))) for n, a in p) + "]" for p in progs), "; ".join(map(str, sched)))
-    m = dict(chan=chan, N=N, M=M, k=k, origin=origin, progs=progs, sched=sched)
+    m = dict(chan=chan, N=N, M=M, k=k, origin=origin, progs=progs, sched=sched, probe=probe)
     m.update(meta or {})
     return Case(line, coq, m)
 
@@ -52,7 +52,7 @@ def parse_case_line(line):
             sched = [int(x) for x in sec[1:].split()]
         else:
             progs.append([(tok.split(":")[0], [int(x) for x in tok.split(":")[1:]]) for tok in sec.split()])
-    return mk_case(params["chan"], int(params.get("N", 4)), int(params.get("M", 1)), int(params.get("k", 1)), int(params.get("origin", 0)), progs, sched)
+    return mk_case(params["chan"], int(params.get("N", 4)), int(params.get("M", 1)), int(params.get("k", 1)), int(params.get("origin", 0)), progs, sched, probe=params.get("probe") == "1")
 
 def gen_case(rng, chan, Ns=(2, 4), Ms=(1, 2), origin=0, profile=None, tail_rounds=40):
     N = rng.choice(Ns); M = rng.choice(Ms); k = rng.randint(1, M)
@@ -78,6 +78,75 @@ def gen_case(rng, chan, Ns=(2, 4), Ms=(1, 2), origin=0, profile=None, tail_round
     for _ in range(tail_rounds):
         sched += list(range(nthreads))
     return mk_case(chan, N, M, k, origin, progs, sched, {"profile": profile})
+
+def gen_preempt_case(rng, chan, Ns=(2, 4), tail_rounds=40):
+    """a producer is stopped after its first 1..6 accesses; meanwhile a second producer and an executor-driven stream push BUFFER_SIZE
+    (or a few more) complete send -> yield -> release cycles through the channel, one after the other; then the first producer goes on"""
+    N = rng.choice(Ns); M = rng.choice([1, 2]); k = 1
+    if chan in SLOW_KINDS: tail_rounds = tail_rounds * 3
+    kinds = ["send"] if chan == "crossbeam" else ["send", "sendw"]
+    n2 = N + rng.randint(0, 2)
+    progs = [[(rng.choice(kinds), [100])] + ([(rng.choice(kinds), [101])] if rng.random() < 0.5 else []),
+             [(rng.choice(kinds), [200 + j]) for j in range(n2)],
+             [("drive", [0])]]
+    per = 30 if chan in SLOW_KINDS else 14
+    sched = [2] * per + [0] * rng.randint(1, 6)
+    for _ in range(n2): sched += [1] * per + [2] * (per + 10)
+    sched += random_sched(rng, 3, rng.randint(0, 30), burst=0.5)
+    for _ in range(tail_rounds): sched += [0, 1, 2]
+    return mk_case(chan, N, M, k, 0, progs, sched, {"profile": "preempt"})
+
+def gen_waker_switch_case(rng, chan, tail_rounds=60):
+    """the executor hands the stream a DIFFERENT waker at 1-3 of its first polls (a task that migrated, select_all, a hand-written
+    executor): only the waker passed to the latest poll has to be woken.  Producers as in the drive profile; no model (oracle only)."""
+    c = gen_case(rng, chan, profile="drive", tail_rounds=tail_rounds)
+    progs = []
+    for p in c.meta["progs"]:
+        if p and p[0][0] == "drive":
+            mask = 0
+            for _ in range(rng.randint(1, 3)): mask |= 1 << rng.randint(1, 5)
+            if rng.random() < 0.5: mask |= 0xffff & ~((1 << rng.randint(2, 6)) - 1)      # ... and keeps the second waker from some poll on
+            progs.append([("drivem", [p[0][1][0], mask])])
+        else: progs.append(p)
+    return mk_case(chan, c.meta["N"], c.meta["M"], c.meta["k"], 0, progs, c.meta["sched"], {"profile": "waker_switch"})
+
+def gen_starve_case(rng, chan, Ns=(2, 4)):
+    """one thread gets several thousand consecutive grants while the others stand wherever the random prefix left them (possibly inside a
+    critical section): nothing may be given up on - afterwards, with everything drained, the channel accepts BUFFER_SIZE events again"""
+    N = rng.choice(Ns); M = 1; k = 1
+    kinds = ["send"] if chan == "crossbeam" else ["send", "sendw"]
+    progs = [[(rng.choice(kinds), [100 + j]) for j in range(rng.randint(2, 2 * N))],
+             [(rng.choice(kinds), [200 + j]) for j in range(rng.randint(0, 3))],
+             [("drive", [0])]]
+    progs = [p for p in progs if p]
+    nt = len(progs)
+    if rng.random() < 0.7:
+        # producer A keeps the stream supplied (one complete send per round), producer B advances ONE step per round - so that it stands,
+        # in turn, at every point of its sends, inside every critical section of the ring and of the payload pool - and then the stream's
+        # thread gets a 4200-grant burst in which it consumes A's event and releases the payload
+        progs = [[(rng.choice(kinds), [100 + j]) for j in range(34)], [(rng.choice(kinds), [200 + j]) for j in range(2)], [("drive", [0])]]
+        nt = 3
+        sched = [2] * 16
+        for _ in range(32): sched += [0] * 24 + [1] + [2] * 4200
+    else:
+        sched = random_sched(rng, nt, rng.randint(5, 120), burst=rng.choice([0.3, 0.6]))
+        sched += [rng.randrange(nt)] * 6000
+    sched += random_sched(rng, nt, rng.randint(0, 60), burst=0.5)
+    for _ in range(150): sched += list(range(nt))
+    return mk_case(chan, N, M, k, 0, progs, sched, {"profile": "starve"}, probe=True)
+
+def uni_oracle_probe(case, recs):
+    """(cases run with probe=1) when the run went quiet, after draining every stream the channel accepted exactly BUFFER_SIZE of BUFFER_SIZE+1 sends"""
+    fin = [r for r in recs if r[0] == "final"]
+    if not fin or len(fin[0][1]) < 2 or fin[0][1][-2] != -2: return []
+    st = end_states(case, recs)
+    if any(v == "running" for v in st.values()): return []
+    granted = {r[3] for r in recs if r[0] == "ret" and r[2] == 20}; resolved = {r[3] for r in recs if r[0] == "ret" and r[2] in (27, 24)}
+    if granted - resolved: return []
+    acc = fin[0][1][-1]
+    if acc != case.meta["N"]:
+        return [(None, "with every stream drained and every payload released the channel accepted %d of %d+1 new events (expected exactly %d)" % (acc, case.meta["N"], case.meta["N"]))]
+    return []
 
 def gen_entry_case(rng, chan, Ns=(2, 4, 8), tail_rounds=50, async_ok=True, reserve_ok=True):
     """the other entry points: thread 0 issues reserve / fill + send-reserved (mostly the oldest outstanding) / cancel (the latest
@@ -132,6 +201,7 @@ def oracle_only_suites(rng, n, profile=None, Ns=(2, 4), entry=True, tail_rounds=
     out = []
     for ch in ORACLE_ONLY_KINDS:
         cases = [gen_case(rng, ch, Ns=Ns, profile=profile, tail_rounds=tail_rounds) for _ in range(n - (n // 2 if entry else 0))]
+        if profile != "cancel": cases += [gen_preempt_case(rng, ch, Ns=tuple(set(Ns))) for _ in range(max(10, n // 5))]
         if entry: cases += [gen_entry_case(rng, ch, Ns=tuple(x for x in (2, 4, 8) if x in Ns or x == 4)) for _ in range(n // 2)]
         out.append(Suite("uni_%s(oracle only)" % ch, HEADER, cases, compare=False))
     return out
@@ -196,7 +266,7 @@ def op_intervals(case, recs):
             j = pos.get(t, 0)
             if j >= len(progs[t]): continue
             n, a = progs[t][j]
-            if n == "drive":                                          # one drive = many polls: every Ready / Pending answer is a record
+            if n in ("drive", "drivem"):                              # one drive = many polls: every Ready / Pending answer is a record
                 out.append((t, j, "poll", a, first.get(t, prev_ret.get(t, 0)), i, r[2]))
                 first.pop(t, None); prev_ret[t] = i
                 if r[2] == 14: pos[t] = j + 1
@@ -221,7 +291,7 @@ def uni_oracle_no_leak(case, recs):
     if fin and chan in ("move_atomic", "zc_atomic") and len(fin[0][1]) >= 4:
         head, tail, etail, dhead = fin[0][1][:4]
         if etail != tail: hits.append((None, "every reservation was sent or cancelled and every thread finished, yet the reservation counter (%d) is ahead of the publication counter (%d): a slot leaked" % (etail, tail)))
-    driven = sorted(a[0] for p in case.meta["progs"] for n, a in p if n == "drive")
+    driven = sorted(a[0] for p in case.meta["progs"] for n, a in p if n in ("drive", "drivem"))
     if driven == list(range(case.meta["k"])) and not any(n == "cancel_all" for p in case.meta["progs"] for n, a in p):
         ok = len([r for r in recs if r[0] == "ret" and r[2] in (10, 27)]); yl = len([r for r in recs if r[0] == "ret" and r[2] == 12])
         if ok != yl and not oracle_lost_wakeup(case, recs):
@@ -300,7 +370,7 @@ def end_states(case, recs):
     for t in range(len(case.meta["progs"])):
         rs = last.get(t, [])[-2:]
         if len(rs) == 2 and all(r[0] == "skip" for r in rs): out[t] = "done"
-        elif len(rs) == 2 and all(r[0] == "acc" and r[3] == 11 and r[4] == 0 for r in rs): out[t] = ("parked", rs[-1][2] - 300)
+        elif len(rs) == 2 and all(r[0] == "acc" and r[3] == 11 and r[4] == 0 for r in rs): out[t] = ("parked", (rs[-1][2] - 300) % 20)
         else: out[t] = "running"
     return out
 
@@ -325,7 +395,7 @@ def consumer_inside_a_send(case, recs):
     """some access of a stream-driving thread falls between the first access and the return of a send / send_with / send_with_async
     (the entry points whose wake decision uses the length sampled at the slot reservation)"""
     progs = case.meta["progs"]
-    consumers = {t for t, p in enumerate(progs) if any(n in ("drive", "poll") for n, a in p)}
+    consumers = {t for t, p in enumerate(progs) if any(n in ("drive", "poll", "drivem") for n, a in p)}
     open_ = set(); pos = {}
     for r in recs:
         if r[0] == "acc":
@@ -349,7 +419,7 @@ def oracle_lost_wakeup(case, recs):
     yl = len([r for r in recs if r[0] == "ret" and r[2] == 12])
     parked = [v[1] for v in st.values() if v != "done"]
     k = case.meta["k"]
-    driven = [a[0] for p in case.meta["progs"] for n, a in p if n == "drive"]
+    driven = [a[0] for p in case.meta["progs"] for n, a in p if n in ("drive", "drivem")]
     if ok - yl > 0 and sorted(parked) == list(range(k)) and sorted(driven) == list(range(k)):
         cls = None
         if case.meta["chan"] in ("move_atomic", "zc_atomic"):
